@@ -117,7 +117,7 @@ func c02Readers() []c02Reader {
 	plain := func(b []byte) io.Reader { return lab.PlainReader{R: bytes.NewReader(b)} }
 	onebyte := func(b []byte) io.Reader { return lab.OneByteReader{R: bytes.NewReader(b)} }
 	buffered := func(b []byte) io.Reader { return bufio.NewReaderSize(bytes.NewReader(b), 64) }
-	stutter := func(b []byte) io.Reader { return &lab.StutterReader{B: b} } // (0,nil) calls, tiny pieces, data+EOF
+	stutter := func(b []byte) io.Reader { return &lab.StutterReader{B: b} }                                     // (0,nil) calls, tiny pieces, data+EOF
 	dataErr := func(b []byte) io.Reader { return iotest.DataErrReader(lab.PlainReader{R: bytes.NewReader(b)}) } // last byte comes with io.EOF
 	inspect := func(validate bool) func([]byte) ([]refcar.Block, bool, error) {
 		return func(in []byte) ([]refcar.Block, bool, error) {
